@@ -219,8 +219,12 @@ func (r *run) afterEvent(e Ev) {
 	for _, h := range r.held {
 		h.after--
 		if h.after <= 0 {
+			// quiescence before and after: a client that gets its answer may send its next request at
+			// once, and the numbering of requests must not depend on which goroutine is faster
+			synctest.Wait()
 			r.logf("late response of %s is delivered now", callOwner(h.c))
 			r.deliverResp(h.c, false)
+			synctest.Wait()
 			r.fault("resp-late-delivered")
 		} else {
 			keep = append(keep, h)
